@@ -332,6 +332,12 @@ func (b *rsBroker) onWrite(c *memConn, pkt []byte) error {
 		coq = "PPubRel 4777%nat"
 		desc = fmt.Sprintf("unexpected(%x)", pkt)
 	}
+	// reserved flag bits (MQTT 3.1.1 table 2.2): a conforming broker closes the connection on a violation;
+	// here the packet is logged as something the model never writes
+	if (typ == 0x60 || typ == 0x80 || typ == 0xA0) && pkt[0]&0x0F != 0x02 {
+		coq = "PPubRel 4777%nat"
+		desc = fmt.Sprintf("bad-reserved-flags(%02x) %s", pkt[0], desc)
+	}
 	if dead {
 		b.wire = append(b.wire, rsWire{k, coq, "WDead", desc})
 		return errClosedConn
